@@ -23,6 +23,10 @@ func main() {
 		fmt.Println(strings.Join(mc.IDs(), " "))
 		return
 	}
+	if id == "oneshot-seq" { // vcheck oneshot-seq <root> <json [][]string>: the lines one after the other in one session of this fresh process
+		proj.OneShotSeqMain(os.Args[2], os.Args[3])
+		return
+	}
 	if id == "oneshot" { // vcheck oneshot <root> <batch-line arguments...>: one run in this fresh process, result as JSON
 		proj.OneShotMain(os.Args[2], os.Args[3:])
 		return
